@@ -9,8 +9,18 @@ use crate::Explored;
 use serde_json::json;
 
 pub fn explore(opts: &Opts) -> Explored {
-    let space = conv_space(opts.tier);
-    let variants: Vec<u64> = vec![opts.seed % 3, (opts.seed + 1) % 3];
+    let mut space = conv_space(opts.tier);
+    // a few larger geometries (longer unrolled windows, more windows) on top of the exhaustive small ones
+    for (img, fil, sr, sc) in [
+        (vec![3, 7, 6], vec![2, 3, 3, 3], 2, 1),
+        (vec![2, 3, 7, 6], vec![2, 3, 3, 3], 1, 2),
+        (vec![1, 9, 9], vec![3, 1, 4, 4], 2, 2),
+        (vec![2, 2, 6, 8], vec![4, 2, 2, 5], 3, 1),
+        (vec![4, 5, 5], vec![1, 4, 1, 1], 1, 3),
+    ] {
+        space.push(ConvCfg { image: img, filters: fil, sr, sc });
+    }
+    let variants: Vec<u64> = vec![opts.seed % 3, (opts.seed + 1) % 3, 3, 4];
     let local = par(opts, space.len(), |i, l| {
         let c = &space[i];
         l.states += 1;
